@@ -38,7 +38,7 @@ LName(L) == IF L = A6 THEN "A6" ELSE IF L = B6 THEN "B6" ELSE IF L = A3 THEN "A3
             ELSE IF L.k = "bc" THEN "BC" ELSE "RU"
 Rec(tok) == hist' = IF Export THEN Append(hist, tok) ELSE hist
 Bounded == Export => Len(hist) <= Depth
-ExportInv == (Export /\ Len(hist) = Depth) => PrintT(<<"SCN", 0, hist>>)
+ExportInv == (Export /\ Len(hist) = Depth) => PrintT("SCNLINE " \o ToString(0) \o FoldLeft(LAMBDA a, b : a \o " " \o b, "", hist))
 
 NoOutcome == [sent |-> FALSE, delivered |-> FALSE, got |-> NoLabel, want |-> NoLabel, subst |-> FALSE, wl |-> "none",
               afterClear |-> FALSE, enAtSend |-> TRUE, maxAtSend |-> 0, prevAtSend |-> NoLabel, passed |-> NoLabel]
